@@ -224,3 +224,56 @@ Definition ok (c : case) : bool :=
   && Nat.eqb (c_n_batches c) (length (c_table c))
   && match expected_batches c with Some k => Nat.eqb (c_n_batches c) k | None => true end
   && match thr with Some t => forallb (fun s => dle (sdisc s) t) (c_rows c) | None => true end.
+
+(** ---- histories: several runs on ONE Rejection instance (C01, wave 2) ----
+    [Rejection.set_objective] as coded rebinds [self.state] to a fresh dict (samples None, n_filled 0,
+    n_batches 0, threshold inf) and resets the batch handler: whatever the instance holds from
+    earlier runs ([prev]) is discarded, only batch_size (a property of the instance) stays. *)
+Definition rset_objective (prev : option rstate) (n b : nat) (f : objective_form) : rstate :=
+  let '(obj, thr) := initial_objective n b f in rinit n b thr obj.
+
+(** one sample()/infer() call on an instance left in state [prev] by the earlier calls: the final state *)
+Definition run_on (prev : option rstate) (c : case) : option rstate :=
+  match rseq (S (length (c_table c))) (rset_objective prev (c_n c) (c_b c) (c_form c)) (c_table c) with
+  | Some (s, _) => Some s
+  | None => None
+  end.
+
+(** the results of the consecutive runs of a history (a run the model cannot finish on the recorded
+    batches gives None and leaves the instance as it was) *)
+Fixpoint history_results (prev : option rstate) (h : list case) : list (option rresult) :=
+  match h with
+  | [] => []
+  | c :: r => match run_on prev c with
+              | Some s => Some (extract s) :: history_results (Some s) r
+              | None => None :: history_results prev r
+              end
+  end.
+
+Definition result_agrees (r : option rresult) (c : case) : bool :=
+  match r with
+  | Some r => rows_eqb (res_rows r) (c_rows c) && deqb (res_threshold r) (c_threshold c)
+              && Nat.eqb (res_n_sim r) (c_n_sim c) && Nat.eqb (res_n_batches r) (c_n_batches c)
+  | None => false
+  end.
+
+Fixpoint all2 {A B : Type} (f : A -> B -> bool) (l : list A) (m : list B) : bool :=
+  match l, m with
+  | [], [] => true
+  | x :: r, y :: s => f x y && all2 f r s
+  | _, _ => false
+  end.
+
+(** a history case: the instance's batch_size and its consecutive runs, each with its own objective,
+    its own record of consumed batches and the result it returned *)
+Record hcase := { h_b : nat; h_runs : list case }.
+
+Definition same_instance (h : hcase) : bool := forallb (fun c => Nat.eqb (c_b c) (h_b h)) (h_runs h).
+
+(** the implementation's result of every run equals the model's result of that run on the instance
+    as the earlier runs left it *)
+Definition hagree (h : hcase) : bool :=
+  same_instance h && all2 result_agrees (history_results None (h_runs h)) (h_runs h).
+
+(** the property holds for every run of the history, each judged against its own consumed draws *)
+Definition hok (h : hcase) : bool := same_instance h && forallb ok (h_runs h).
